@@ -50,6 +50,11 @@ def run(tier):
     dealers += [{"kind": "dealercheat", "proto": pr, "n": 3, "t": 1, "byz": b, "alt": a, "sched": vlib.seed() * 5 + 100 + i}
                 for i, (pr, b, a) in enumerate((pr, b, a) for pr in ("cmp-keygen", "cmp-refresh") for b in ("a", "b", "c")
                                                for a in ("plus", "minus", "nonzero") if not (pr == "cmp-keygen" and a == "nonzero"))]
+    # two-party handler: a well-formed message of a LATER round (from another run with the same parameters) presented before
+    # anything else - it is stored early and must still be verified when its round comes
+    dealers += [{"kind": "early", "proto": pr, "n": 2, "t": 1, "byz": b, "round": rd, "sched": vlib.seed() * 3 + i}
+                for i, (pr, b, rd) in enumerate((pr, b, rd) for pr in ("doerner-keygen", "doerner-sign", "doerner-refresh")
+                                                for b in ("a", "b") for rd in (1, 2, 3, 4, 5))]
     st = adv.run_family(rep, wd, plan(quick), PROP, vlib.seed(), {"C03"}, shards=14, extra_scen=dealers)
     rep.cov.update({"distinct_nontrivial": st["distinct"], "states": st["states"], "transitions": st["transitions"],
                     "traces_validated_against_impl": st["traces"], "trace_lines": st["lines"], "catalogue_cases": st["catalogue"],
